@@ -124,7 +124,7 @@ def run_inputs(ck: Check, inputs: List[g.Input], limit: float, cli_every: int, t
     return out
 
 
-def still_fails(ck: Check, inp: g.Input, candidates: List[str], stage: str, sig: Tuple[str, str], limit: float,
+def still_fails(ck: Check, inp: g.Input, candidates: List[Any], stage: str, sig: Tuple[str, str], limit: float,
                 tag: str) -> List[bool]:
     """run several variants of the main file at once; True where the same failure shows"""
     inputs = []
@@ -143,8 +143,17 @@ def still_fails(ck: Check, inp: g.Input, candidates: List[str], stage: str, sig:
 def shrink(ck: Check, inp: g.Input, stage: str, sig: Tuple[str, str], limit: float) -> g.Input:
     """delta debugging on lines, then on characters, of the main file (batched ddmin)."""
     main = inp["files"][inp["main"]]
-    if not isinstance(main, str):
-        return inp
+    binary = not isinstance(main, str)
+    if binary:          # raw bytes: shrink them as Latin-1 characters and re-encode
+        import base64
+        main = base64.b64decode(main["b64"]).decode("latin-1")
+        inp = dict(inp, files=dict(inp["files"]))
+
+        def enc(t: str):
+            return {"b64": base64.b64encode(t.encode("latin-1")).decode()}
+    else:
+        def enc(t: str):
+            return t
     rounds = [0]
 
     def ddmin(units: List[str]) -> List[str]:
@@ -157,7 +166,7 @@ def shrink(ck: Check, inp: g.Input, stage: str, sig: Tuple[str, str], limit: flo
             cands = [c for c in cands if 0 < len(c) < len(units)]
             if not cands:
                 break
-            oks = still_fails(ck, inp, ["".join(c) for c in cands], stage, sig, limit, f"shr{rounds[0]}_")
+            oks = still_fails(ck, inp, [enc("".join(c)) for c in cands], stage, sig, limit, f"shr{rounds[0]}_")
             hit = next((c for c, ok in zip(cands, oks) if ok), None)
             if hit is not None:
                 units = hit
@@ -173,7 +182,7 @@ def shrink(ck: Check, inp: g.Input, stage: str, sig: Tuple[str, str], limit: flo
     if len(text) <= 400:
         text = "".join(ddmin(list(text)))
     files = dict(inp["files"])
-    files[inp["main"]] = text
+    files[inp["main"]] = enc(text)
     used = {inp["main"]} | {n for n in files if n in text}
     files = {n: v for n, v in files.items() if n in used}
     return {**inp, "files": files, "origin": inp.get("origin", "?") + " (shrunk)"}
@@ -375,7 +384,7 @@ def t2_compile_inputs(ck: Check) -> Tuple[List[g.Input], List[Dict[str, Any]]]:
     for val in (10 ** 4300 - 1, 10 ** 4300):
         add(f"proto a\nmessage M {{ uint8[{hex(val)}] x = 1 }}\n",
             {"t": "p_error-int", "stage": "parse", "big": True, "text": "uint8[<hex literal>]",
-             "model": f'(p_error_path_outcome ("GrammarError"%string, true, 757%nat) (TInt {hex(val)}))'})
+             "model": f"(p_error_int_outcome {hex(val)})"})
         add(f"proto a\nconst A = {hex(val)}\nmessage M {{ uint8[A] x = 1 }}\n",
             {"t": "array-token-int", "stage": "parse", "big": True, "text": "uint8[A], A huge",
              "model": f'(bind (array_type_token {hex(val)}) (fun _ => @ParserError unit "InvalidArrayCap"%string))'})
@@ -529,7 +538,10 @@ def run(ck: Check) -> None:
     th = threading.Thread(target=work)
     th.start()
     t0 = time.time()
+    # props/C09.v: the totality theorems (hold under their guards; survive a fix of a known finding)
+    # props/C09_refuted.v: the witnesses of the known findings (stop compiling when a defect is fixed)
     ck.try_prove("C09.v", model_vo=("theories/Total.vo",))
+    ck.try_prove("C09_refuted.v", model_vo=("theories/Total.vo",))
     timings["coq_build_s"] = round(time.time() - t0, 1)
     th.join()
     if "error" in box:
